@@ -166,7 +166,13 @@ def Small (N : Nat) (g : Gate) : Prop :=
 /-- a library gate on distinct in-range qubits with a resolvable name (C03's and C13's input class) -/
 def InClass (N : Nat) (g : Gate) : Prop := shapedB N g = true ∧ resolvable.contains g.name = true
 
-theorem splitBasis_strCNOT : ∃ inB, splitBasis (.str .CNOT) = .ok ([.RX, .RY, .RZ], [.CNOT], inB) := ⟨_, rfl⟩
+/-- whichever way the tree reads a string basis (`Gen.strExact`), `"CNOT"` is: all three rotations, CNOT -/
+theorem splitBasis_cnot_any (ex : Bool) :
+    ∃ inB, splitBasis (normBasis ex (.str .CNOT)) = .ok ([.RX, .RY, .RZ], [.CNOT], inB) := by
+  cases ex <;> exact ⟨_, rfl⟩
+
+theorem splitBasis_strCNOT : ∃ inB, splitBasis cnotBasis = .ok ([.RX, .RY, .RZ], [.CNOT], inB) :=
+  splitBasis_cnot_any _
 
 /-- the pre-decomposition of one (in-class) gate yields small gates -/
 theorem expandOne_small {N : Nat} {g : Gate} (hg : InClass N g) {a : List Gate}
@@ -174,7 +180,7 @@ theorem expandOne_small {N : Nat} {g : Gate} (hg : InClass N g) {a : List Gate}
   unfold expandOne at h
   split at h
   · obtain ⟨inB, hsb⟩ := splitBasis_strCNOT
-    have hnames := resolve_names_core true (.str .CNOT) [g] a _ _ inB hsb (by simp) (by decide)
+    have hnames := resolve_names_core true cnotBasis [g] a _ _ inB hsb (by simp) (by decide)
       (by decide) (by decide) (by simpa using hg.2) h
     have hsh := resolve_shaped (N := N) (fun x hx => by rw [List.mem_singleton.mp hx]; exact hg.1) h
     intro x hx
